@@ -158,6 +158,24 @@ pub fn gen(o: &Opts, sink: &mut dyn FnMut(Vec<i64>, String)) {
         c.push(0);
         sink(c, String::new());
     }
+    // timed, systematic: every (status class before) x (command class) x (status class after the silence), the command
+    // older than the transition timeout when the cycles run: a shutdown stays a shutdown on an engine that still turns
+    // or cranks, cranking ends, a running engine keeps running
+    for pre in [1u64, 2, 3, 5] {
+        for cmd in [9u64, 10, 8] {
+            for post in [0u64, 1, 2, 3, 5] {
+                if !o.tier_thorough && cmd == 8 && post % 2 == 1 { continue; }
+                k += 1; if !mine(o, k) { continue; }
+                let mut rng = Rng::new(o.seed, 8_700_000 + k);
+                let mut c = vec![0x00, 0x27];
+                letter(pre, &mut rng, &mut c); letter(cmd, &mut rng, &mut c); c.push(0);
+                c.extend([4, 2100]);
+                if post != 0 { letter(post, &mut rng, &mut c); }
+                c.push(0); c.push(0);
+                sink(c, String::new());
+            }
+        }
+    }
     // the speed byte for every commanded rpm (engine reported running)
     let step = if o.tier_thorough { 1 } else { 7 };
     for rpm in (0..=65535i64).step_by(step) {
